@@ -229,17 +229,17 @@ Theorem orthogonal_pca_pre_f8_refuted :
 Proof. exact main_orthogonal_pca_pre_f8_refuted. Qed.
 Print Assumptions orthogonal_pca_pre_f8_refuted.
 
-(* feature-space pencils (NPE, LPP; LLTSA's lhs): (A,B) -> (R A R^T, R B R^T), answers P -> R P,
+(* feature-space pencils (NPE, LPP, LLTSA): (A,B) -> (R A R^T, R B R^T), answers P -> R P,
    and project() of the transported answer returns the same numbers *)
 Theorem orthogonal_pencils : forall F (Fo : FieldOps F) (Ff : IsField F) n D d (R W X : mat F) (Dg : vec F)
-                                    (B P : mat F) lam,
+                                    (P : mat F) lam,
   orthogonal D R ->
-  (B = npe_rhs n X \/ B = lpp_rhs n Dg X) ->
-  geig_answer D d (pencil_lhs n W X) B P lam ->
-  geig_answer D d (pencil_lhs n W (rotate D R X))
-                  (fun a b => conj_R D R B a b) (mmul D R P) lam /\
-  (forall a b, npe_rhs n (rotate D R X) a b = conj_R D R (npe_rhs n X) a b) /\
-  (forall a b, lpp_rhs n Dg (rotate D R X) a b = conj_R D R (lpp_rhs n Dg X) a b) /\
+  (geig_answer D d (pencil_lhs n W X) (npe_rhs n X) P lam ->
+   geig_answer D d (pencil_lhs n W (rotate D R X)) (npe_rhs n (rotate D R X)) (mmul D R P) lam) /\
+  (geig_answer D d (pencil_lhs n W X) (lpp_rhs n Dg X) P lam ->
+   geig_answer D d (pencil_lhs n W (rotate D R X)) (lpp_rhs n Dg (rotate D R X)) (mmul D R P) lam) /\
+  (geig_answer D d (pencil_lhs n W X) (lltsa_rhs n X) P lam ->
+   geig_answer D d (pencil_lhs n W (rotate D R X)) (lltsa_rhs n (rotate D R X)) (mmul D R P) lam) /\
   forall m i k, project D (mmul D R P) (rot_vec D R m) (rotate D R X) i k = project D P m X i k.
 Proof. exact main_orthogonal_pencils. Qed.
 Print Assumptions orthogonal_pencils.
